@@ -190,6 +190,8 @@ def run_arith(rep, thorough, seed, rig, fut_mc, fut_emit, max_cases=None):
     cases = [p for p in eres.prints if isinstance(p, dict) and "visit" in p]
     if not cases:
         raise tlc.MachineryError("CycleArithmetic emission printed no case")
+    if {c["mode"] for c in cases} != {"simple", "detailed"}:
+        raise tlc.MachineryError("vacuous: AddSimple / AddDetailed not both taken")
     if max_cases and len(cases) > max_cases:
         cases = random.Random(seed + 11).sample(cases, max_cases)
     ad = ArithAdapter(rig)
@@ -277,10 +279,15 @@ class RunAdapter:
         rig.configure(history=hist, settings=st)
         o = rig.new_operator()
         sink = []
-        go.build_stack(rig, o, cfg["ifs"], sink, env, order=order)
+        b = cfg.get("bolset", 0)
+        go.build_stack(rig, o, cfg["ifs"], sink, env, order=order, sets_start=(b, cfg["sc"], cfg["sn"]) if b else None)
         if cfg["tight"]:
             o.addInterface(go.DbStub.make(rig.r, rig.cs, sink), enabled=False)
-        rig.reset_time(cfg["sc"], cfg["sn"])
+        # restart point in place at entry, or (bolset) put there by a BOL hook of the stack while operate() starts at (0, 0)
+        if b:
+            rig.reset_time(0, 0)
+        else:
+            rig.reset_time(cfg["sc"], cfg["sn"])
         err = None
         try:
             o.operate()
@@ -454,8 +461,10 @@ def random_cfg(rng, big):
         ifs.append({"en": rng.random() < 0.75, "bf": rng.random() < 0.3, "rev": rng.random() < 0.35,
                     "dfr": rng.random() < 0.3, "cpl": rng.random() < 0.5, "hlt": rng.random() < 0.3})
     tight = rng.random() < 0.6
+    # half of the restarts away from (0, 0) are put in place by the BOL hook of some interface of the stack (called at BOL or not)
+    bolset = rng.randint(1, m) if (sc, sn) != (0, 0) and rng.random() < 0.5 else 0
     return {"steps": steps, "sc": sc, "sn": sn, "ifs": ifs, "dcyc": rng.randint(0, ncyc), "tight": tight,
-            "cap": rng.randint(1, 3), "skip": [tight and rng.random() < 0.25 for _ in range(ncyc)]}
+            "cap": rng.randint(1, 3), "skip": [tight and rng.random() < 0.25 for _ in range(ncyc)], "bolset": bolset}
 
 
 def trace_driver(rig, ntraces, seed, big):
@@ -478,7 +487,7 @@ def trace_driver(rig, ntraces, seed, big):
 
 
 def run_traces(rep, thorough, seed, rig, ntr=None):
-    ntr = ntr or (1500 if thorough else 250)
+    ntr = ntr or (1500 if thorough else 200)
     traces = trace_driver(rig, ntr, seed, thorough)
     bad, stats = tracecheck.validate("Operator_trace", "Operator_trace.cfg", MODDIR, traces, timeout=3000)
     rep.add_tlc("operator-trace-validation", stats["tlc"])
@@ -681,11 +690,14 @@ def run(rep, tier, seed):
     for m in ("CycleArithmetic_mc", "Operator_mc", "Operator_trace", "OperatorDispatch_mc"):
         tlc.sany(m, MODDIR)
     sfx = "_thorough.cfg" if thorough else ".cfg"
-    w_mc = 16 if thorough else 4
+    w_mc = 16 if thorough else 2  # the sandbox is shared and usually overloaded: more workers made quick slower
     pool = ThreadPoolExecutor(max_workers=5)
     f_op_mc = pool.submit(tlc.run, "Operator_mc", "Operator_mc" + sfx, MODDIR, workers=w_mc, want_prints=False, timeout=3000)
     f_op_emit = pool.submit(tlc.run, "Operator_mc", "Operator_emit" + sfx, MODDIR, workers=1, coverage=False, timeout=3000)
-    f_ar_mc = pool.submit(tlc.run, "CycleArithmetic_mc", "CycleArithmetic_mc" + sfx, MODDIR, workers=2, want_prints=False, timeout=3000)
+    # quick: CycleArithmetic_emit.cfg is itself exhaustive for its constants (all histories of <= 2 cycles, every law listed as
+    # an invariant); the separate 3-cycle exhaustive run is part of the thorough tier
+    f_ar_mc = pool.submit(tlc.run, "CycleArithmetic_mc", "CycleArithmetic_mc" + sfx, MODDIR, workers=8, want_prints=False,
+                          timeout=3000) if thorough else None
     f_ar_emit = pool.submit(tlc.run, "CycleArithmetic_mc", "CycleArithmetic_emit" + sfx, MODDIR, workers=1, coverage=False, timeout=3000)
     f_disp = pool.submit(tlc.run, "OperatorDispatch_mc", "OperatorDispatch_emit" + sfx, MODDIR, workers=1, coverage=False, timeout=3000)
 
@@ -700,7 +712,7 @@ def run(rep, tier, seed):
     rep.add_tlc("operator-exhaustive", res, {"cfg": "Operator_mc" + sfx})
     _tlc_verdict(rep, res, "Operator")
     _nonvacuous(res, ("DoBOL", "Call", "SampleStart", "EndBOC", "EndEN", "EndCPL", "DbWrite", "EndEOC", "EndEOL"))
-    run_replay(rep, thorough, seed, rig, f_op_emit, None if thorough else 4000)
+    run_replay(rep, thorough, seed, rig, f_op_emit, None if thorough else 6000)
     pool.shutdown()
     rep.exhaustive = True
     rep.extra["tolerances"] = {"lengths_rtol": RTOL, "stepLength_power_seen_in_hooks": "exact (1e-12 relative)"}
@@ -708,7 +720,9 @@ def run(rep, tier, seed):
         "deferral (deferredInterfaceNames / deferredInterfacesCycle) acts on the BOL hook and on BOC hooks before the deferral "
         "cycle only, as getActiveInterfaces implements and upstream test_getActiveInterfaces asserts",
         "exclusion lists exist for interactAllBOL / EveryNode / EOC / EOL only (the other entry points take none)",
-        "restart point = (r.p.cycle, r.p.timeNode) at entry of operate(), inside the history (sc < nCycles, sn <= burnSteps[sc])",
+        "restart point = (r.p.cycle, r.p.timeNode) after the BOL event -- in place at entry of operate(), or written by the "
+        "interactBOL of an interface of the stack (as MainInterface does for loadStyle=fromDB) -- inside the history "
+        "(sc < nCycles, sn <= burnSteps[sc]); the database side of a restart is not exercised",
         "tightCouplingMaxNumIters = 0 with coupling on means no iteration",
         "simple input with burnSteps = 0 only for nCycles = 1 (settings validation refuses the rest); detailed 'step days' / "
         "'cumulative days' cycles have availability > 0; 'burn steps' + 'cycle length' cycles admit burn steps = 0 and availability = 0",
@@ -811,6 +825,9 @@ def mutants():
          "            startingNode = self.r.p.timeNode if self.r.p.timeNode <= self.burnSteps[cycle] else 0"),
         ("timeNode not written to the reactor", Op, "_timeNodeLoop", "self.r.p.timeNode = timeNode", "pass"),
         ("EveryNode arguments swapped", Op, "_timeNodeLoop", "self.interactAllEveryNode(cycle, timeNode)", "self.interactAllEveryNode(timeNode, cycle)"),
+        ("start cycle read before the BOL event", Op, "_mainOperate",
+         "        self.interactAllBOL()\n        startingCycle = self.r.p.cycle  # may be starting at t != 0 in restarts\n",
+         "        startingCycle = self.r.p.cycle\n        self.interactAllBOL()\n"),
         ("halt skips EOL", Op, "_mainOperate", "            if not keepGoing:\n                break", "            if not keepGoing:\n                return"),
         ("EOC skipped in the last cycle", Op, "_cycleLoop", "        self.interactAllEOC(self.r.p.cycle)", "        if not self.atEOL:\n            self.interactAllEOC(self.r.p.cycle)"),
         ("deferred interfaces called at BOL", Op, "getActiveInterfaces", "lambda i: i.name not in self.cs[CONF_DEFERRED_INTERFACE_NAMES]\n                and i.name not in excludedInterfaceNames",
@@ -835,7 +852,7 @@ def mutants():
         ("previous node of (c, 0) is one past the end", utils, "getPreviousTimeNode", "indexOfLastNode = nodesInLastCycle - 1", "indexOfLastNode = nodesInLastCycle"),
         ("simple step lengths ignore availability", utils, "_getStepAndCycleLengths", "for length in cycleLengthsModifiedByAvailability", "for length in cycleLengths"),
         ("cumulative days not differenced", utils, "_getStepAndCycleLengths", "stepLengths.append(getStepsFromValues(cumulativeDays))", "stepLengths.append([float(d) for d in cumulativeDays])"),
-        ("detailed cycle length not divided by availability", utils, "_getStepAndCycleLengths", "cycleLength / aFactor", "cycleLength"),
+        ("detailed cycle length not divided by availability", utils, "_getStepAndCycleLengths", "else sum(cycleStepLengths) / aFactor", "else sum(cycleStepLengths)"),
     ]
 
 
